@@ -17,6 +17,10 @@ import sys
 
 def _mk(case):
     from synkit.CRN.DAG.syncrn import SynCRN
+    if case.get("no_rdkit"):
+        # the module-level availability flag of syncrn.py: with RDKit missing (Chem None) species keys are the SMILES as written
+        from synkit.CRN.DAG import syncrn as _m
+        _m.Chem = None
     # the hydrogen / strategy options must reach the worker processes like everything else: varied by the "hopts" cases
     kw = dict(rules=list(case["rules"]), repeats=case["repeats"], explicit_h=case.get("explicit_h", False),
               implicit_temp=case.get("implicit_temp", True),
